@@ -162,3 +162,20 @@ CHECKS["C11"] = dict(
     design_ref="DESIGN.md 9/C11",
     level_text="Exhaustive within bounds on the real priority queues; the MSPriorityQueue oracle demands exactly what the property states (conditional linearizability).",
 )
+
+HB_NOTE = ("the *-hb unit repeats the exploration with the happens-before tracker (DESIGN 7.6): vector clocks over the memory orders libcds actually requested; a harness-owned payload "
+           "access that is not ordered after the producer's write by a release/acquire chain through the container is a violation (catches publish-before-write and weakened orders, "
+           "which a sequentially consistent interleaving cannot show)")
+
+CHECKS["C12"] = dict(
+    title="WeakRingBuffer SPSC FIFO",
+    units=[dict(name="ring", src="harness/ring.cpp"),
+           dict(name="ring-hb", src="harness/ring.cpp", args=["--hb"])],
+    rule="every schedule with <= c preemptions of producer/consumer programs: typed ring (capacities 2, 3, 4; all producer sequences of <=2 operations over {push, push[2], push[3]} x consumer sequences "
+         "over {pop, pop[2], front+pop_front}, empty or one-element prefix); WeakRingBuffer<void> (capacities 32, 40, 48, 64; every record-size sequence of length <=4 over {1,7,8,9,16,cap-16}, positions "
+         "skewed by 0 or 16 bytes); outcome = the log of calls and results; non-trivial = a producer call overlapped a consumer call",
+    explanation="exact FIFO of elements/records with exact sizes and bytes incl. the final drain; a failed push/pop must be justified by the space/elements that can have been present during the call "
+                "(weakest reading); record sizes are kept inside the contract WeakRingBuffer<void>::back() asserts (real_size < capacity, i.e. size <= capacity-16). " + HB_NOTE,
+    design_ref="DESIGN.md 9/C12, 7.6",
+    level_text="Exhaustive within bounds on the real ring buffer (SPSC: two threads), plus the happens-before pass over payload bytes.",
+)
